@@ -36,6 +36,9 @@ def build(race=False, tags="verif"):
     cmd = ["go", "build", "-tags", tags, "-o", out]
     if race:
         cmd.append("-race")
+    elif os.environ.get("VERIF_COVERDIR"):     # bin/coverage: which statements of the repository do the drivers execute
+        out = os.path.join(BUILD, "goatverif-cover")
+        cmd = ["go", "build", "-tags", tags, "-cover", "-coverpkg=goatverif/...,github.com/goatnetwork/goat/x/...,github.com/goatnetwork/goat/app/...,github.com/goatnetwork/goat/pkg/...", "-o", out]
     cmd.append("./cmd/goatverif")
     t0 = time.time()
     p = subprocess.run(cmd, cwd=HARNESS, env=goenv(), capture_output=True, text=True)
@@ -50,6 +53,8 @@ def driver(binary, args, cwd, timeout=3600, env=None):
     e = goenv()
     if env:
         e.update(env)
+    if os.environ.get("VERIF_COVERDIR"):
+        e["GOCOVERDIR"] = os.environ["VERIF_COVERDIR"]
     try:
         p = subprocess.run([binary] + [str(a) for a in args], cwd=cwd, env=e, capture_output=True, text=True, timeout=timeout)
     except subprocess.TimeoutExpired:
